@@ -7,8 +7,10 @@ import (
 	"fmt"
 	"io"
 	"os"
+	"runtime"
 	"sync"
 	"syscall"
+	"testing/synctest"
 	"time"
 
 	"github.com/criyle/go-sandbox/container"
@@ -306,6 +308,9 @@ func (p *s1procs) status(ch *s1child) syscall.WaitStatus {
 }
 
 func (p *s1procs) Wait4(pid int, ws *syscall.WaitStatus, opt int, ru *syscall.Rusage) (int, error) {
+	if pid == container.VPoisonPid {
+		runtime.Goexit()
+	}
 	w := p.w
 	for {
 		w.mu.Lock()
@@ -531,6 +536,8 @@ func (w *s1world) teardown() {
 		w.procs.killLocked(ch)
 	}
 	w.mu.Unlock()
+	synctest.Wait()
+	container.VRetireServer()
 }
 
 const (
